@@ -522,6 +522,8 @@ def random_tags(m, rng, oriented=False):
         f = rng.choice(cand, size=k, replace=False)
         if rng.random() < 0.5:
             f = np.sort(f)
+        if len(f) and rng.random() < 0.15:
+            f = np.append(f, f[int(rng.integers(len(f)))])          # a facet listed twice: the same designation
         ori = None
         if oriented and rng.random() < 0.4:
             ins = set(int(x) for x in intf)
@@ -1163,11 +1165,19 @@ def model(ctx):
     to = 1500 if ctx.tier == 'thorough' else 400
     ctx.model_must_hold('MC_C18', 'MC_C18.cfg', env=env, timeout=to, xmx='4g',
                         label='transcriptions of restrict/remove/+/unused/duplicates/to_meshtri/to_meshtet (current code)')
-    old = ctx.tlc_model('MC_C18', 'MC_C18_dup.cfg', env={'TIER': ctx.tier, 'OUT_FILE': ''}, timeout=to, xmx='4g',
-                        label='regression model: remove_duplicate_nodes before 0832543 (tag arrays kept verbatim)')
-    ctx.notes['old_dup_removal_refuted_by_tlc'] = bool(old['violated'])
-    if not old['violated']:
-        raise MachineryError('MC_C18_dup.cfg: TLC no longer refutes the pre-repair RemoveDuplicateNodesImplOld')
+    # regression models: the behaviour before each repair, kept in the specification; TLC must keep refuting them
+    for cfg, note, what in (
+            ('MC_C18_dup.cfg', 'old_dup_removal_refuted_by_tlc',
+             'remove_duplicate_nodes before 0832543 (tag arrays kept verbatim)'),
+            ('MC_C18_counts.cfg', 'old_used_vertex_count_refuted_by_tlc',
+             "to_meshtri(style='x') / tri * line before e738c29 (new points numbered from the highest used vertex + 1)"),
+            ('MC_C18_repeat.cfg', 'old_facet_lookup_refuted_by_tlc',
+             'to_meshtri facet lookup before 229e2bb (a repeated facet id looked up twice with one shared iterator)')):
+        old = ctx.tlc_model('MC_C18', cfg, env={'TIER': ctx.tier, 'OUT_FILE': ''}, timeout=to, xmx='4g',
+                            label='regression model: ' + what)
+        ctx.notes[note] = bool(old['violated'])
+        if not old['violated']:
+            raise MachineryError('%s: TLC no longer refutes the regression model (%s)' % (cfg, what))
     recs = []
     if os.path.exists(out):
         docs = json.load(open(out))
